@@ -54,6 +54,13 @@ class ShiftEval:
 
     # -- algebra ------------------------------------------------------------
     def plus(self, a, b, minus=False):
+        # pointers into a typed array: ('P', class of the elements); pointer +/- integer keeps it, pointer - pointer is a count
+        if isinstance(a, tuple) and a and a[0] == "P":
+            if isinstance(b, tuple) and b and b[0] == "P":
+                return I if minus else X
+            return a if b in (I, Z, None) else X
+        if isinstance(b, tuple) and b and b[0] == "P":
+            return b if (a in (I, Z, None) and not minus) else X
         if a is None or b is None:
             return None
         if a == Z:
@@ -155,6 +162,9 @@ class ShiftEval:
         if cond is not None and cond["kind"] == "BinaryOperator" and cond.get("opcode") == "<" and lv is not None \
                 and _norm(render(kids(cond)[0])) == lv["name"]:
             bound = _norm(render(kids(cond)[1]))
+        if cond is not None and cond["kind"] == "BinaryOperator" and cond.get("opcode") == "<=" and lv is not None \
+                and _norm(render(kids(cond)[0])) == lv["name"] and start == "1":
+            bound = _norm(render(kids(cond)[1]))          # 1 .. n inclusive: n rounds as well
         if lv is not None:
             self.env[lv["id"]] = I
         # accumulators: variables assigned in the body that were declared outside it
@@ -169,7 +179,7 @@ class ShiftEval:
                 acc.append(t["ref"]["id"])
         info = {"var": lv["name"] if lv else None, "start": start, "bound": bound, "node": n}
         self.loop_stack.append(info)
-        cands = [I, E] + ([("S", bound)] if (bound and start == "0") else []) + [X]
+        cands = [I, E] + ([("S", bound)] if (bound and start in ("0", "1")) else []) + [X]
         chosen = None
         saved = (dict(self.env), len(self.problems), len(self.stores), self.checked)
         for assign in itertools.product(cands, repeat=len(acc)):
@@ -213,9 +223,11 @@ class ShiftEval:
 
     def first_round_ok(self, body, vid, info):
         """None if the zero-initialised accumulator `vid` may be treated as equivariant inside the loop."""
-        if info["start"] != "0" or not info["var"]:
-            return "the loop does not count from zero"
+        if info["start"] not in ("0", "1") or not info["var"]:
+            return "the loop does not count from zero (or from one)"
         lvn = info["var"]
+        # the number of samples seen including this one: i + 1 when counting from 0, i when counting from 1
+        nth = ("%s+1" % lvn, "1+%s" % lvn) if info["start"] == "0" else (lvn, lvn)
         stmts = kids(body) if body["kind"] == "CompoundStmt" else [body]
         name = self.names.get(vid)
         tainted = {}      # local name -> init text
@@ -238,13 +250,13 @@ class ShiftEval:
             return "no difference (sample - mean) is formed before the update"
         d0 = diffs[0]
         sample = tainted[d0][:-(len(name) + 1)]
-        quot = [k_ for k_, v_ in tainted.items() if v_ in ("%s/%s+1" % (d0, lvn), "%s/1+%s" % (d0, lvn))]
+        quot = [k_ for k_, v_ in tainted.items() if v_ in ("%s/%s" % (d0, nth[0]), "%s/%s" % (d0, nth[1]))]
         up = strip(stmts[upd_index], casts=True)
         rhs = _norm(render(kids(up)[1]))
-        okupd = (up.get("opcode") == "+=" and (rhs in quot or rhs in ("%s/%s+1" % (d0, lvn), "%s/1+%s" % (d0, lvn))))
+        okupd = (up.get("opcode") == "+=" and (rhs in quot or rhs in ("%s/%s" % (d0, nth[0]), "%s/%s" % (d0, nth[1]))))
         if not okupd:
             return "the update is not mean += (sample - mean) / (i + 1)"
-        zero_factors = {"%s-%s" % (d0, q) for q in quot} | {"%s-%s/%s+1" % (d0, d0, lvn)}
+        zero_factors = {"%s-%s" % (d0, q) for q in quot} | {"%s-%s/%s" % (d0, d0, nth[0])}
         late_zero = "%s-%s" % (sample, name)
         for i, s in enumerate(stmts):
             if i == upd_index:
@@ -292,14 +304,16 @@ class ShiftEval:
             return None
         if k == "MemberExpr":
             if "*" in (n.get("type") or ""):
-                return None          # the array itself, not a sample
+                c_ = self.field_cls.get(n.get("name"))
+                return ("P", c_) if c_ is not None else None          # the array itself: a pointer to samples of class c_
             return self.field_cls.get(n.get("name"))
         if k == "ArraySubscriptExpr":
             self.expr(ch[1])
             b = strip(ch[0], casts=True)
             if b["kind"] == "MemberExpr":
                 return self.field_cls.get(b.get("name"))
-            return self.expr(b)
+            v_ = self.expr(b)
+            return v_[1] if isinstance(v_, tuple) and v_ and v_[0] == "P" else v_
         if k == "UnaryOperator":
             op = n.get("opcode")
             if op == "-":
@@ -311,7 +325,8 @@ class ShiftEval:
                 self.expr(ch[0])
                 return I
             if op == "*":
-                return self.expr(ch[0])
+                v_ = self.expr(ch[0])
+                return v_[1] if isinstance(v_, tuple) and v_ and v_[0] == "P" else v_
             return None
         if k == "ConditionalOperator":
             self.expr(ch[0])
@@ -359,6 +374,8 @@ class ShiftEval:
                 return self.over(a, b, ch[1])
             if op in ("<", ">", "<=", ">=", "==", "!="):
                 self.checked += 1
+                if (isinstance(a, tuple) and a and a[0] == "P") or (isinstance(b, tuple) and b and b[0] == "P"):
+                    return I              # a test on addresses (NULL check, cursor against end), not on sample values
                 d = self.plus(a, b, minus=True) if (a is not None and b is not None) else None
                 if d is not None and d not in (I, Z) and not self.quiet:
                     self.problems.append((n, "the comparison %s relates a quantity of class %s to one of class %s: its outcome "
